@@ -167,6 +167,10 @@ class Interp:
         self.invalid = None
         self.injected_calls = []
         self.build_no = 0
+        self.stragglers = {}         # owner/tag -> list of call records
+        self.straggler_hints = {}    # owner/tag -> {stmt index: late?}
+        self.ret_seq = {}            # inv -> scheduler seq when its API call
+                                     # returned to the caller
 
     # ------------------------------------------------------------------
     def wrap(self, builder):
@@ -231,6 +235,7 @@ class Interp:
             variant = self.variant(spec)
             fr = Frame(inv, fid, path, args, kw, variant, B)
             self.enter(fr)
+            fn.invs.append(fr.inv)
             body = spec['variants'][variant]
             try:
                 self.run_body(fr, body)
@@ -242,6 +247,7 @@ class Interp:
             return 'r' + digest([fid, variant, fr.obs])
         fn.__name__ = 'fn_' + fid
         fn.entered = []
+        fn.invs = []
         return fn
 
     def enter(self, fr):
@@ -339,12 +345,14 @@ class Interp:
             except CrashError:
                 raise
             except Exception as e:
+                self.note_returned(func)
                 self.note_injected(e, 'f', path, None, None, None)
                 self.after_bf(fr, path, False, e, bool(func.entered))
                 if not catch or getattr(e, '_fbsim_fatal', False):
                     raise
                 fr.obs.append(['bf', rel, '!' + type(e).__name__])
                 return
+            self.note_returned(func)
             self.last_raw = r
             self.after_bf(fr, path, True, None, bool(func.entered))
             fr.obs.append(['bf', rel, typed_repr(r)])
@@ -359,11 +367,13 @@ class Interp:
             except CrashError:
                 raise
             except Exception as e:
+                self.note_returned(func)
                 self.note_injected(e, 's', None, fname, args, kwargs)
                 if not catch or getattr(e, '_fbsim_fatal', False):
                     raise
                 fr.obs.append(['sb', fid, '!' + type(e).__name__])
                 return
+            self.note_returned(func)
             self.last_raw = r
             fr.obs.append(['sb', fid, typed_repr(r)])
         elif op == 'w':
@@ -411,6 +421,8 @@ class Interp:
             self.late(fr, st)
         elif op == 'spawn':
             self.spawn(fr, st)
+        elif op == 'straggle':
+            self.straggle(fr, st)
         elif op == 'probe':
             self.probe(fr, st)
         elif op == 'nop':
@@ -469,6 +481,10 @@ class Interp:
             key = sub_key(fname, jround(list(unjson(args))),
                           jround(dict(unjson(kwargs))))
         self.injected_calls.append((key, type(e)))
+
+    def note_returned(self, func):
+        for inv in func.invs:
+            self.ret_seq[inv] = self.seq()
 
     def after_bf(self, fr, path, ok, exc, entered):
         """Physical post-conditions of build_file (C10), real mode only."""
@@ -568,6 +584,78 @@ class Interp:
 
     def late(self, fr, st):
         raise NotImplementedError
+
+    # ------------------------------------------------------------------
+    # C17: a thread that keeps using a builder while / after its owner returns
+    def straggle(self, fr, st):
+        body, tag = st[1], st[2]
+        key = '%s/%s' % (fr.inv, tag)
+        rec = self.stragglers.setdefault(key, [])
+        owner = fr.inv
+        B = fr.B
+
+        def one(j, s):
+            kind = s[0]
+            ent = {'j': j, 'kind': kind, 'inv_seq': self.seq(),
+                   'owner': owner, 'stmt': s}
+            f = None
+            try:
+                if kind == 'q':
+                    cmp = s[3] if len(s) > 3 else 'METADATA'
+                    if self.mode == 'real':
+                        a = B.query(s[1], self.sb.p(s[2]), cmp, None)
+                    else:
+                        a = B.query(s[1], self.sb.p(s[2]), cmp)
+                    ent['out'] = ['ok', norm_answer(s[1], a, self.sb)]
+                elif kind == 'sb':
+                    f = self.make_func(s[1])
+                    r = B.subbuild(self.funcs[s[1]]['name'], f, s[2], s[3])
+                    ent['out'] = ['ok', typed_repr(r)]
+                elif kind == 'bf':
+                    f = self.make_func(s[2])
+                    if self.mode == 'real':
+                        r = B.build_file(self.sb.p(s[1]),
+                                         self.funcs[s[2]]['name'], f, s[3],
+                                         s[4], s[5], None)
+                    else:
+                        r = B.build_file(self.sb.p(s[1]),
+                                         self.funcs[s[2]]['name'], f, s[3],
+                                         s[4], s[5])
+                    ent['out'] = ['ok', typed_repr(r)]
+                    ent['entered'] = bool(f.entered)
+            except Exception as e:
+                ent['out'] = ['!' + type(e).__name__]
+                if f is not None:
+                    ent['entered'] = bool(f.entered)
+            ent['ret_seq'] = self.seq()
+            rec.append(ent)
+
+        if self.mode == 'model':
+            # the model follows the real run: a call that the real builder
+            # refused as "already finished" is late (no effect at all), every
+            # other call happened while the owner was alive
+            late = self.straggler_hints.get(key, {})
+            for j, s in enumerate(body):
+                if late.get(j):
+                    rec.append({'j': j, 'kind': s[0],
+                                'out': ['!RuntimeError']})
+                else:
+                    one(j, s)
+            return
+
+        def run():
+            for j, s in enumerate(body):
+                if self.sched is not None:
+                    self.sched.yield_point('stmt', 'straggler')
+                one(j, s)
+
+        if self.sched is not None:
+            self.sched.spawn_detached(run)
+        else:
+            run()
+
+    def seq(self):
+        return self.sched.seq if self.sched is not None else 0
 
     def spawn(self, fr, st):
         """Run bodies 'concurrently' on the same builder.
